@@ -872,4 +872,23 @@ def as112Reply (q' : Query) : Msg :=
     fl := { qr := true, aa := true, rd := q'.rd, ra := true, cd := q'.cd },
     question := some q'.question, ns := [.data .other 0 0 0] }
 
+/-- the BADCOOKIE the rate limiter writes (`CancelWithRcode(BADCOOKIE, false)`
+ahead of edns, on the request as the client sent it): the client's COOKIE
+option completed with the server's half, every other option dropped. -/
+def badCookieReply (q : Query) : Msg :=
+  cancelWithRcode
+    (clientView { q with opt := q.opt.map (fun o => { o with options := o.options.map (fun x =>
+        match x with
+        | .raw c d => if c == codeCookie && decide (d.length ≥ 8) then .srvCookie (d.take 8) else x
+        | y => y) }) } true)
+    rcodeBadCookie false
+
+/-- the rate limiter in front of the guarded edns handler. -/
+def ratelimitServe (L Lu : Msg → Nat) (c : Consts) (cfg : Cfg) (proto : Proto) (q : Query) (wb : Bool)
+    (known same allow : Bool) (next : Query → Outcome) : Option Msg :=
+  match ratelimitStep proto q known same allow with
+  | .next => serveGuarded L Lu c cfg proto q wb next
+  | .badcookie => some (badCookieReply q)
+  | .drop => none
+
 end SdnsVerif.Model.Edns
